@@ -193,7 +193,7 @@ def gen_module(rng, params):
                     ann[f"{table}/{keying}@{rel}"] = (f"c-{it['id']}-{rel}" if table == "comments" else rng.randint(1, 9))
                 it["ann"] = ann
     # CFI procedures (x86-64 ELF): contiguous runs of code blocks
-    if isa == "x64" and fmt == "elf" and rng.random() < params.get("cfi_p", 0.0):
+    if isa == "x64" and (fmt == "elf" or params.get("cfi_pe")) and rng.random() < params.get("cfi_p", 0.0):
         _gen_cfi(rng, isa, blocks, desc, data_labels, ids)
     # symbol tables for delete_symbol (C19)
     if rng.random() < params.get("symtabs_p", 0.0):
